@@ -9,6 +9,10 @@
 //!   * `reconstruct` : `Relayer::reconstruct_block` on a real node, driven through the same
 //!                  pre-checks as `CompactBlockProcess` / `BlockTransactionsProcess`
 //!                  (`c16_recon`).
+//!   * `relay-session` : the compact-block relay end to end through `CKBProtocolHandler::received` of
+//!                  a real `Relayer` with a recording protocol context; valid blocks of the reference
+//!                  model, honest and dishonest peers, availability changes between the rounds
+//!                  (`c16_session`).
 //!   * `fuzz-artifact` : replay of a libFuzzer crash artifact (raw bytes) through the same target
 //!                  functions; produced by the thorough tier's `cargo +nightly fuzz run` campaign
 //!                  (see `/verif/check` and `/verif/fuzz`).
@@ -21,6 +25,7 @@
 use crate::c16_bytes::{self, TYPES};
 use crate::c16_gen::{self, ByteCase};
 use crate::c16_recon;
+use crate::c16_session;
 use crate::common::*;
 use serde_json::{Value, json};
 
@@ -28,12 +33,13 @@ pub fn spec() -> CheckSpec {
     CheckSpec {
         id: "C16",
         level: "exploration",
-        rule: "byte level: a case is one byte string given to target_frame or target_message; non-trivial = the bytes decode successfully for >=1 protocol type (message) / yield >=1 decoded or decompressed frame (frame); distinct = hash of the bytes. reconstruction: a case is one (block, compact block, pool content, uncle states, peer replies) scenario run through CompactBlockVerifier -> reconstruct_block -> BlockTransactionsVerifier/BlockUnclesVerifier -> reconstruct_block; non-trivial = >=1 same-hash-different-witness twin among the candidates or >=1 missing position; distinct = hash of the scenario",
+        rule: "byte level: a case is one byte string given to target_frame or target_message; non-trivial = the bytes decode successfully for >=1 protocol type (message) / yield >=1 decoded or decompressed frame (frame); distinct = hash of the bytes. reconstruction: a case is one (block, compact block, pool content, uncle states, peer replies) scenario run through CompactBlockVerifier -> reconstruct_block -> BlockTransactionsVerifier/BlockUnclesVerifier -> reconstruct_block; non-trivial = >=1 same-hash-different-witness twin among the candidates or >=1 missing position; distinct = hash of the scenario. relay-session: a case is a model-built chain whose blocks from #3 on are relayed to a real node through Relayer::received (compact block, GetBlockTransactions/BlockTransactions rounds, several peers, honest / lying replies, tx-pool and uncle availability changing between rounds); a session = the relay of one block; non-trivial = the node had to send >=1 GetBlockTransactions; distinct = hash of (case, block index)",
         assumptions: &[
             "handler pre-checks are mirrored, not re-verified: SendBlock/CompactBlock with more than one extra field, messages failing check_data(), alerts failing the utf-8 checks are dropped before the deeper accessors exactly as the handlers do; JSON conversions run only on values that satisfy the check_data() rules (their documented 'checked data' precondition)",
             "BlockTransactionsVerifier/BlockUnclesVerifier receive only in-range indexes (the node computes them itself)",
             "real 80-bit short-id collisions between different transactions cannot be generated; the collision class exercised is the same-hash-different-witness twin",
             "reconstruction runs on one node per worker process: tx-pool is cleared and uncle statuses are set explicitly at the start of every case; uncles use hashes derived from the case so earlier cases cannot interfere",
+            "relay-session: local availability of a transaction = what TxPoolController::fetch_txs returns at the quiescent point right before the message (pool, conflict cache and recently committed cache are the pool's business); of an uncle = the check imported it (stored) or saw it enter the orphan pool; an uncle released from the orphan pool while the verify thread is held busy by a blocking verify callback counts as neither available nor unavailable; positions already requested from a peer may be requested again (documented merge of the previous miss); in a session in which a liar announced the genuine header with a tampered body every violation is attributed to that announcement (one signature per kind of change, five known findings) and the case ends there",
             "MAX_UNCOMPRESSED_LEN = 1<<23 and COMPRESSION_SIZE_THRESHOLD = 1024 are private constants of network/src/compress.rs, copied by value",
         ],
         workers: |_| 8,
@@ -123,12 +129,27 @@ fn run(ctx: &Ctx) {
     if ctx.worker == 0 {
         write_seed_corpus(ctx);
     }
-    let cases = ctx.cases(1_200_000, 8_000_000);
-    ctx.run_prop("message", cases, c16_gen::message_case(), byte_prop("message"));
-    let cases = ctx.cases(320_000, 2_400_000);
-    ctx.run_prop("frame", cases, c16_gen::frame_case(), byte_prop("frame"));
-    let cases = ctx.cases(64_000, 400_000);
-    c16_recon::run(ctx, cases);
+    // development aid: VERIF_C16_SUB=<sub-check> runs that sub-check only
+    let only = std::env::var("VERIF_C16_SUB").ok();
+    let want = |sub: &str| only.as_deref().map(|o| o == sub).unwrap_or(true);
+    if want("message") {
+        let cases = ctx.cases(1_200_000, 8_000_000);
+        ctx.run_prop("message", cases, c16_gen::message_case(), byte_prop("message"));
+    }
+    if want("frame") {
+        let cases = ctx.cases(320_000, 2_400_000);
+        ctx.run_prop("frame", cases, c16_gen::frame_case(), byte_prop("frame"));
+    }
+    if want("reconstruct") {
+        let cases = ctx.cases(64_000, 400_000);
+        c16_recon::run(ctx, cases);
+    }
+    if !want("relay-session") {
+        return;
+    }
+    // relay sessions through the real protocol handler: one node per case, 1-5 relayed blocks each
+    let cases = ctx.cases(800, 8000);
+    c16_session::run(ctx, cases);
 }
 
 /// seed corpus for the libFuzzer targets, written under `$VERIF_WORK/../fuzz-corpus/<target>`
@@ -176,6 +197,7 @@ fn replay(ctx: &Ctx, sub: &str, v: &Value) -> Verdict {
                 c16_bytes::target_message(&data).map(|_| ())
             }
         }
+        "relay-session" => c16_session::replay(v, &mut st),
         _ => c16_recon::replay(v, &mut st),
     }
 }
